@@ -90,6 +90,23 @@ func (h *Handle) openSQLite() error {
 	return nil
 }
 
+// SecondHandle opens another SQLiteStore on the same file (as `hookaido mcp`
+// does next to a running server). The caller closes it.
+func (h *Handle) SecondHandle() (*queue.SQLiteStore, error) {
+	if h.Backend != "sqlite" {
+		return nil, errors.New("second handle: not sqlite")
+	}
+	cfg := h.Cfg
+	return queue.NewSQLiteStore(h.Path,
+		queue.WithSQLiteNowFunc(h.Clock.Now),
+		queue.WithSQLiteQueueLimits(cfg.MaxDepth, cfg.DropPolicy),
+		queue.WithSQLiteRetention(cfg.RetentionMaxAge, cfg.PruneInterval),
+		queue.WithSQLiteDeliveredRetention(cfg.DeliveredRetention),
+		queue.WithSQLiteDLQRetention(cfg.DLQMaxAge, cfg.DLQMaxDepth),
+		queue.WithSQLiteCheckpointInterval(0),
+	)
+}
+
 // Reopen closes (or abandons, when abandon is true) the SQLite handle and opens
 // a fresh one on the same file.
 func (h *Handle) Reopen(abandon bool) error {
